@@ -81,7 +81,7 @@ func zzSetterCount(typ int) int {
 	case 10:
 		return 3
 	case 14:
-		return 2
+		return 5
 	case 15:
 		return 5
 	}
@@ -448,6 +448,18 @@ func zzApplySetter(pk ControlPacket, a *zzAbs, k int, l int, pre string) bool {
 			a.reason = v
 		case 1:
 			g.user(&p.UserProperties, &a.props)
+		case 2:
+			v := g.u32()
+			p.SetSessionExpiryInterval(v)
+			zzSetPU(&a.props, 0x11, v)
+		case 3:
+			v := g.str("s")
+			p.SetServerReference(string(v))
+			zzSetPS(&a.props, 0x1c, v)
+		case 4:
+			v := g.str("s")
+			p.SetReasonString(string(v))
+			zzSetPS(&a.props, 0x1f, v)
 		default:
 			ok = false
 		}
